@@ -32,3 +32,6 @@ def check(ctx: Ctx) -> None:
     # '... whatever was requested or cancelled just before it': a cancelled group whose spawner was left alive goes on starting tasks the close then waits for
     from . import cancel as K
     K.r_group_helper(ctx, "R08.11")
+    # "returns only after every task ... has finished" - and it does return: a task ends when its callbacks have run, not when some
+    # Future a plain callback handed back completes (that may well wait for the close itself)
+    S.r_execute_optional(ctx, "R08.13")
